@@ -45,6 +45,7 @@ def workdir(name):
     return d
 
 
+_PROGRESS = re.compile(r"Progress\(\d+\) at [^:]+:[^:]+:[^:]+: ([\d,]+) states generated.*?\), ([\d,]+) distinct states found")
 _STATES = re.compile(r"(\d+) states generated, (\d+) distinct states found, (\d+) states left on queue")
 
 
@@ -52,7 +53,9 @@ def tlc(module, cfg, wd, workers=8, timeout=600, env=None, dfs=False, extra=None
     """Run TLC on spec/<module>.tla with spec/<cfg>; returns dict(rc, out, generated, distinct, ok)."""
     meta = os.path.join(wd, "tlc_" + os.path.basename(cfg).replace(".cfg", ""))
     shutil.rmtree(meta, ignore_errors=True)
-    jopts = "-Xss1g -Xmx%s -XX:+UseParallelGC" % heap
+    jtmp = os.path.join(wd, "jtmp")
+    os.makedirs(jtmp, exist_ok=True)
+    jopts = "-Xss1g -Xmx%s -XX:+UseParallelGC -Djava.io.tmpdir=%s" % (heap, jtmp)
     if dfs:
         jopts += " -Dtlc2.tool.queue.IStateQueue=StateDeque"
     e = {"JAVA_TOOL_OPTIONS": jopts}
@@ -65,11 +68,20 @@ def tlc(module, cfg, wd, workers=8, timeout=600, env=None, dfs=False, extra=None
     t = time.time()
     rc, out = sh(cmd, cwd=SPEC, env=e)
     shutil.rmtree(meta, ignore_errors=True)
+    shutil.rmtree(jtmp, ignore_errors=True)
     m = None
     for m in _STATES.finditer(out):
         pass
     res = dict(rc=rc, out=out, wall=time.time() - t, generated=int(m.group(1)) if m else 0,
                distinct=int(m.group(2)) if m else 0)
+    if m is None:
+        # interrupted run: take the counts of the last progress line
+        for m in _PROGRESS.finditer(out):
+            pass
+        if m:
+            res["generated"] = int(m.group(1).replace(",", ""))
+            res["distinct"] = int(m.group(2).replace(",", ""))
+    res["violated"] = bool(re.search(r"is violated|Error: |Deadlock reached", out))
     res["timeout"] = rc == 124
     res["ok"] = rc == 0 and "No error has been found" in out
     return res
